@@ -460,6 +460,21 @@ class _HandlerDomain(Domain):
                 return self.v['exact'] == pos
             if "''" in t or '""' in t:
                 return self.v['bare'] == pos
+        if isinstance(e, ast.Compare) and len(e.ops) == 1 and \
+                isinstance(e.ops[0], (ast.In, ast.NotIn)) and \
+                isinstance(e.comparators[0], (ast.Tuple, ast.List,
+                                              ast.Set)):
+            # x in (a, b)  ==  x == a or x == b
+            vals = [self.truth(ast.Compare(left=e.left, ops=[ast.Eq()],
+                                           comparators=[c]))
+                    for c in e.comparators[0].elts]
+            if any(v is True for v in vals):
+                res = True
+            elif all(v is False for v in vals):
+                res = False
+            else:
+                return None
+            return res if isinstance(e.ops[0], ast.In) else not res
         if isinstance(e, ast.Call) and 'match_base' in t:
             return self.v['base']
         return None
